@@ -1,5 +1,6 @@
 import CircBuf.Lemmas.Conserve
 import CircBuf.Lemmas.Truncate
+import CircBuf.Lemmas.HistoryConserve
 /-!
 # C03 — every element is dropped exactly once and never while still reachable
 
@@ -60,5 +61,18 @@ theorem C03_consequences (created inBuf held dropped : List Nat) (hnd : created.
 once, and nothing is left -/
 theorem C03_final_drop (s : Sys) (h : Inv s.buf) (hf : s.faults.drop = 0) :
     RefinesL dropBuffer s () [] (dropEvents s.kind (abs s.buf)) := clear_spec s h hf
+
+/-- **along any finite history** of the abstract deque: initial contents plus everything handed in is
+a permutation of final contents, everything handed to the caller and everything destroyed -/
+theorem C03_history (cap : Nat) (ops : List Op) (xs : List Elem) :
+    (xs ++ (Spec.tally cap ops xs).1).Perm
+      ((Spec.runOps cap ops xs).2 ++ (Spec.tally cap ops xs).2.1 ++ (Spec.tally cap ops xs).2.2) :=
+  Spec.history_conserves cap ops xs
+
+/-- … and the model's ledger along that history consists of exactly those destructions (the model's
+outputs and contents agree with the abstract run by `C01_history`) -/
+theorem C03_history_ledger (cap : Nat) (ops : List Op) (s : Sys) (g : Good cap s) :
+    (runOps ops s).2.log = Spec.histDrops s.kind cap ops (abs s.buf) ++ s.log :=
+  history_ledger cap ops s g
 
 end CircBuf
